@@ -120,7 +120,21 @@ def launch(cell):
         out.append({'msg': f'launch speed {got!r} differs from get_velocity_for_temp(powder_temp) = {exp_api!r}', 'key': None})
     if abs(got - exp) > 1e-9 * v0:
         out.append({'msg': f'launch speed {got!r}, line gives {exp!r} (mod {mod}, v0 {v0} @ {t0c} C, powder {want_pt} C, on={on})', 'key': None})
-    return {'v': out, 'n': 2, 'nt': cell if (on and mod and want_pt != t0c) else None, 'obs': [on, powder_c is None]}
+    # ... in every computation, zeroing included: zero with the same calculator, fire back, the trajectory must meet the sight line
+    import math
+    calc = pb.Calculator()
+    zd = 200.0 * 3
+    try:
+        calc.set_weapon_zero(shot, pb.Unit.Foot(zd))
+        back = [r for r in calc.fire(shot, pb.Unit.Foot(zd), pb.Unit.Foot(zd)).trajectory if r.flag & 8][-1]
+        miss = abs(back.target_drop >> pb.Unit.Foot)
+        bound = 5e-6 + 0.5 * abs(math.tan(back.angle >> pb.Unit.Radian)) + 1e-9
+        if miss > bound:
+            out.append({'msg': f'zeroed at 200 yd with powder at {want_pt} C (stated {v0} fps at {t0c} C, modifier {mod}, on={on}) but the shot then fired is {miss * 12:.3f} in off the sight line '
+                               f'there (allowed {bound * 12:.4f} in): zeroing did not launch with the velocity for the powder temperature', 'key': None})
+    except (pb.RangeError, pb.ZeroFindingError):
+        pass
+    return {'v': out, 'n': 4, 'nt': cell if (on and mod and want_pt != t0c) else None, 'obs': [on, powder_c is None]}
 
 
 PARTS = {'calib': calib, 'same': same, 'launch': launch}
